@@ -255,6 +255,53 @@ func genC15(t *rapid.T, cfg *core.Config) *core.Case {
 	return c
 }
 
+// genC15Dyn: membership in a literal array of int (string) constants whose left operand the checker types as
+// int (string) although a dynamically typed operand takes part: only the typed, optimised variants replace the
+// array by a lookup table, and whatever they do for a value that is not an int must agree with the array.
+func genC15Dyn(t *rapid.T, cfg *core.Config) *core.Case {
+	anyTy := rapid.SampledFrom([]string{"float64", "float64", "float32", "int8", "uint16", "int64", "string", "nil"}).Draw(t, "anyTy")
+	spec := core.GenEnvSpec(t, anyTy, 4)
+	if anyTy == "float64" && rapid.Bool().Draw(t, "half") {
+		spec.AnyV.F = float64(rapid.IntRange(-3, 9).Draw(t, "halves")) / 2
+	}
+	any := core.Var("Any", spec.AnyTy())
+	lit := core.LitInt(rapid.IntRange(0, 3).Draw(t, "lit"))
+	var needle *core.X
+	switch rapid.IntRange(0, 4).Draw(t, "shape") {
+	case 0:
+		needle = core.Cond(core.Var([]string{"B", "T"}[rapid.IntRange(0, 1).Draw(t, "b")], core.TBool), lit, any, any.Ty)
+	case 1:
+		needle = core.Cond(core.Var([]string{"B", "T"}[rapid.IntRange(0, 1).Draw(t, "b")], core.TBool), any, lit, any.Ty)
+	case 2:
+		needle = core.Bin(rapid.SampledFrom([]string{"+", "-", "*"}).Draw(t, "op"), lit, any, any.Ty)
+	case 3:
+		needle = core.Bin(rapid.SampledFrom([]string{"+", "-", "*"}).Draw(t, "op"), any, lit, any.Ty)
+	default:
+		needle = core.Bin("+", core.Var("I", core.TInt), any, any.Ty)
+	}
+	arr := core.Arr(core.TAInt)
+	if anyTy == "string" {
+		arr = core.Arr(core.SeqOf(core.TStr, core.RepIface))
+		for i, n := 0, rapid.IntRange(1, 3).Draw(t, "n"); i < n; i++ {
+			arr.A = append(arr.A, core.LitStr(rapid.SampledFrom([]string{"", "a", "b", "ab"}).Draw(t, "s")))
+		}
+		needle = core.Cond(core.Var("B", core.TBool), core.LitStr("a"), any, core.TStr)
+	} else {
+		for i, n := 0, rapid.IntRange(1, 4).Draw(t, "n"); i < n; i++ {
+			arr.A = append(arr.A, core.LitInt(rapid.IntRange(-1, 5).Draw(t, "e")))
+		}
+	}
+	x := core.Bin(rapid.SampledFrom([]string{"in", "not in"}).Draw(t, "inop"), needle, arr, core.TBool)
+	if rapid.IntRange(0, 2).Draw(t, "wrap") == 0 {
+		x = core.Cond(x, core.LitInt(1), core.LitInt(2), core.TInt)
+	}
+	c := pcase("C15", "variants")
+	c.X, c.Env = x, spec
+	c.Source = x.Src()
+	c.P["undef"] = false
+	return c
+}
+
 func TestC15(t *testing.T) {
 	cfg, rec, done := setup(t, "C15")
 	if done {
@@ -264,5 +311,8 @@ func TestC15(t *testing.T) {
 	rec.Extra["rule"] = "rapid-generated programs (C01 and rewrite-biased generators; 10% use a name the environment lacks) x a generated environment value; 3 Eval runs + 14 compile variants {no Env, Env(struct), Env(*struct), Env(map)} x {AllowUndefinedVariables} x {Optimize} each run on the struct, pointer and map twins (up to 45 results per case); all that succeed must be Equiv. Non-trivial: at least one typed and one untyped variant succeed and a typed program contains a type-specialised instruction (OpEqualInt, OpEqualString, OpFetchMap, OpCallFast); distinct by source+environment."
 	rec.Extra["assumptions"] = []string{"failing variants are not compared (type information may add rejections)", "the map twin holds the same members as the struct: fields, promoted fields of the embedded Base, methods as bound closures"}
 	rec.Extra["floor"] = 0.05
-	core.RunRapid(t, rec, "random", cfg.N(6000, 150000), func(rt *rapid.T) *core.Case { return genC15(rt, cfg) })
+	if !core.RunRapid(t, rec, "random", cfg.N(6000, 150000), func(rt *rapid.T) *core.Case { return genC15(rt, cfg) }) {
+		return
+	}
+	core.RunRapid(t, rec, "dyn-needle", cfg.N(1500, 30000), func(rt *rapid.T) *core.Case { return genC15Dyn(rt, cfg) })
 }
